@@ -382,14 +382,24 @@ def reads(chk, repo, d):
     sym = "ebpfcat.arraymap.ArrayGlobalVarDesc.unpack"
     f = repo.func(sym)
     chk.analysed(sym)
-    ifs = [s for s in walk_no_nested(f) if isinstance(s, ast.If)
-           and match("fmt == 'x'", s.test) is not None]
-    ok = len(ifs) == 1 and bool(find(
-        "unpack_from('q', data, addr)[0] / Expression.FIXED_BASE",
-        ifs[0].body))
+    # abstract execution: raw q values read back through unpack()
+    import struct as _struct
+    dci = repo.cls("ebpfcat.arraymap.ArrayGlobalVarDesc")
+    bad = []
+    for raw in (0, 1, 250000, -250000, 99999, -1, 1 << 40):
+        data = bytes(16) + _struct.pack("q", raw) + bytes(8)
+        me = Obj(dci, {"fmt": "x", "name": "v", "fmt_addr": (
+            "hook", lambda inst: ("x", 16))})
+        try:
+            got = Evaluator(repo, dci.module, dci).call_function(
+                f, [me, Obj(None, {}), data], cls=dci)
+        except (Unknown, Raised) as e:
+            raise AnalysisError(f"{sym}: cannot be evaluated: {e}")
+        if not isinstance(got, float) or abs(got - raw / 100000) > 1e-12:
+            bad.append(f"raw {raw}: reads {got!r}")
     chk.ob("R02.3", sym, "x is read as the 8-byte raw value divided by "
-           "FIXED_BASE", ok, f, "the reader undoes the scaling the writers "
-           "apply")
+           "FIXED_BASE", not bad, f, "; ".join(bad[:3]) or "the reader "
+           "undoes the scaling the writers apply (7 raw values)")
     sym = "ebpfcat.arraymap.ArrayGlobalVarDesc.__set__"
     f = repo.func(sym)
     ifs = [s for s in walk_no_nested(f) if isinstance(s, ast.If)
